@@ -238,8 +238,8 @@ class OffsetOperandStub:
                         return Symbol(token.ctx_start, token.ctx_end, token.representation, is_necessarily_label=True)
                 elif isinstance(token, (Symbol, InstructionPointer)):
                     fixup_active = False
-                else:
-                    assert False  # TODO: really?
+                # Other tokens (decimal numbers like '10.', character literals, bracketed
+                # subexpressions, etc.) can't be local labels and are left as is
                 return token
             fixup_label(operand)
 
